@@ -15,6 +15,7 @@ import (
 	"verif.local/harness/hx"
 	"verif.local/harness/lb"
 	"verif.local/vrt"
+	"verif.local/vrt/vctx"
 )
 
 type opKind int
@@ -62,8 +63,10 @@ func (s *spy) Watch(ctx context.Context, p resource.Pointer, ch chan<- state.Eve
 	if pg, ok := s.parent[g]; ok {
 		g = pg
 	}
+	vrt.TouchKey("c03.spy", true)
 	s.before[g] = append(s.before[g], s.log.Len())
 	err := s.CoreState.Watch(ctx, p, ch, opts...)
+	vrt.TouchKey("c03.spy", true)
 	s.after[g] = append(s.after[g], s.log.Len())
 	return err
 }
@@ -188,8 +191,9 @@ func scenarioFl(flavour string, kinds []opKind, init initial, bounds []int) expl
 		Name:   name,
 		Desc:   fmt.Sprintf("actors %s on one resource, initial %s, flavour %s (remote-native = client adapter with Teardown/TeardownAndDestroy RPCs over the in-process transport, remote-fallback = server without those RPCs)", strings.Join(names, ", "), initNames[init], flavour),
 		Bounds: bounds,
+		HB:     true,
 		Body: func(x *explore.X) {
-			root, cancel := context.WithCancel(context.Background())
+			root, cancel := vctx.WithCancel(context.Background())
 			log := &hx.Log{}
 			sp := &spy{CoreState: hx.NewInmem(log), log: log, before: map[int][]int{}, after: map[int][]int{}}
 			st := state.WrapCore(sp)
@@ -224,6 +228,7 @@ func scenarioFl(flavour string, kinds []opKind, init initial, bounds []int) expl
 				})
 			}
 			vrt.WaitQuiescent()
+			vrt.TouchKey("c03.spy", true)
 			check(x, log, sp, calls)
 			// epilogue: cancellation must unblock everything
 			vrt.Branching(false)
@@ -380,10 +385,8 @@ func build(tier string) []explore.Scenario {
 				continue // two pure observers never interact
 			}
 			for _, in := range inits {
-				bounds := []int{0, 1, 2}
-				if tier == "thorough" {
-					bounds = []int{0, 1, 2, 3, -1}
-				}
+				// happens-before pruning (DESIGN 8.4) makes the unbounded search of a pair cheap
+				bounds := []int{0, 1, 2, -1}
 				out = append(out, scenario([]opKind{a, b}, in, bounds))
 			}
 		}
@@ -393,12 +396,15 @@ func build(tier string) []explore.Scenario {
 		for _, pr := range [][]opKind{{opTDD, opRmFin}, {opTDD, opAddRm}, {opTDD, opDestroy}, {opTDD, opTDD}, {opTeardown, opRmFin}, {opTeardown, opTeardown},
 			{opRmFin, opWaitFinEmpty}, {opTeardown, opWaitTD}, {opDestroy, opWaitDestroyed}, {opTeardown, opCtxTeardown}, {opDestroy, opCtxTeardown}} {
 			for _, in := range []initial{initRunningF, initRunning} {
-				b := []int{0}
+				b := []int{0, 1}
 				if tier == "thorough" {
-					b = []int{0, 1}
+					b = []int{0, 1, 2}
 				}
 				sc := scenarioFl(fl, pr, in, b)
 				sc.MaxExecs = 150000
+				if tier == "thorough" {
+					sc.MaxExecs = 3000000
+				}
 				out = append(out, sc)
 			}
 		}
@@ -427,11 +433,26 @@ func build(tier string) []explore.Scenario {
 			}
 		}
 	}
-	for _, t := range triples {
-		for _, in := range []initial{initRunningF, initTDF, initRunning} {
+	// four actors: a blocking helper against a full foreign lifecycle (last finalizer removed, destroyed,
+	// created again) landing between its steps
+	quads := [][]opKind{
+		{opTDD, opRmFin, opDestroy, opCreate}, {opWaitDestroyed, opRmFin, opDestroy, opCreate},
+		{opWaitFinEmpty, opRmFin, opDestroy, opCreate}, {opCtxTeardown, opRmFin, opDestroy, opCreate}, {opTDD, opTDD, opRmFin, opCreate},
+	}
+	for _, q := range quads {
+		for _, in := range []initial{initRunningF, initTDF} {
 			b := []int{0, 1}
 			if tier == "thorough" {
-				b = []int{0, 1, 2}
+				b = []int{0, 1, 2, 3}
+			}
+			out = append(out, scenario(q, in, b))
+		}
+	}
+	for _, t := range triples {
+		for _, in := range []initial{initRunningF, initTDF, initRunning} {
+			b := []int{0, 1, 2}
+			if tier == "thorough" {
+				b = []int{0, 1, 2, 3, -1}
 			}
 			out = append(out, scenario(t, in, b))
 		}
